@@ -133,7 +133,7 @@ namespace glm
 		GLM_STATIC_ASSERT(std::numeric_limits<T>::is_iec559, "'iround' only accept floating-point inputs");
 		assert(all(lessThanEqual(vec<L, T, Q>(0), x)));
 
-		return vec<L, int, Q>(x + static_cast<T>(0.5));
+		return vec<L, int, Q>(glm::round(x));
 	}
 
 	template<length_t L, typename T, qualifier Q>
@@ -142,6 +142,6 @@ namespace glm
 		GLM_STATIC_ASSERT(std::numeric_limits<T>::is_iec559, "'uround' only accept floating-point inputs");
 		assert(all(lessThanEqual(vec<L, T, Q>(0), x)));
 
-		return vec<L, uint, Q>(x + static_cast<T>(0.5));
+		return vec<L, uint, Q>(glm::round(x));
 	}
 }//namespace glm
